@@ -685,6 +685,7 @@ def correspondence(ctx, model_ok=True):
                    "the real filter's returned lists event by event by particle identity, or by exception class",
            "samples": cases[:2], "model_runner": "Eval vm_compute in generated cases files (sharded coqc)",
            "failures": [], "broken": []}
+    out["all_cases"] = cases          # the driver runs the property oracle on these as well
     for c, g in zip(cases, gots):
         if "altered" in g:
             out["failures"].append(Failure(c, f"particle {g['altered']} was altered by the filter"))
